@@ -3,6 +3,7 @@ package rag
 import (
 	"fmt"
 	"strings"
+	"unicode"
 	"unicode/utf8"
 )
 
@@ -554,10 +555,13 @@ func (sc *SizeCalculator) SplitToSize(text string, boundaries []Boundary) []stri
 		if chunk != "" {
 			chunks = append(chunks, chunk)
 		}
-		remaining = strings.TrimSpace(remaining[splitPos:])
+		rest := remaining[splitPos:]
+		remaining = strings.TrimSpace(rest)
 
-		// Update boundary positions for remaining text
-		boundaries = adjustBoundaryPositions(boundaries, splitPos)
+		// Update boundary positions for remaining text: it starts behind the
+		// split position and behind the white space trimmed from its front
+		lead := len(rest) - len(strings.TrimLeftFunc(rest, unicode.IsSpace))
+		boundaries = adjustBoundaryPositions(boundaries, splitPos+lead)
 	}
 
 	return chunks
